@@ -562,16 +562,13 @@ Lemma sink_lim_pres : forall limit, sink_pres (sink_lim limit).
 Proof.
   intros limit s bs ((p & Hp) & L & O). destruct (sink_write s bs) as [s' r] eqn:E. cbn [fst].
   pose proof (sink_write_keeps_ok _ _ _ _ O E) as O'.
-  unfold sink_write in E. cbv zeta in E. destruct (lenN bs =? 0) eqn:E0.
-  - injection E as <- _. repeat split; eauto.
-  - rewrite Hp in E. unfold limit_policy in E.
-    destruct (s_len s + lenN bs <=? limit) eqn:E1.
-    + rewrite N.leb_refl in E. injection E as <- _. cbn [s_pol s_len]. repeat split; eauto. lia.
-    + destruct p.
-      * destruct (lenN bs <=? limit - s_len s) eqn:E2; [lia|]. injection E as <- _. cbn [s_pol s_len].
-        repeat split; eauto. lia.
-      * destruct (lenN bs <=? 0) eqn:E2; [lia|]. injection E as <- _. cbn [s_pol s_len].
-        repeat split; eauto. lia.
+  assert (X : s_pol s' = s_pol s /\ s_len s' <= limit).
+  { unfold sink_write in E. cbv zeta in E. destruct (lenN bs =? 0) eqn:E0.
+    - injection E as <- _. auto.
+    - destruct (lenN bs <=? s_pol s (s_calls s) (s_len s) (lenN bs)) eqn:E1; injection E as <- _;
+        cbn [s_pol s_len]; (split; [reflexivity|]); rewrite Hp in *; unfold limit_policy in *;
+        destruct (s_len s + lenN bs <=? limit) eqn:E2; try lia; destruct p; lia. }
+  destruct X as (X1 & X2). split; [exists p; congruence|]. split; assumption.
 Qed.
 
 Lemma sink_new_lim : forall p limit, sink_lim limit (sink_new (limit_policy p limit)).
@@ -607,7 +604,7 @@ Qed.
 
 Lemma wrun_cons_fst : forall w o r, fst (wrun w (o :: r)) = fst (wrun (fst (wstep w o)) r).
 Proof.
-  intros. cbn [wrun]. destruct (wstep w o) as [w1 x]. destruct (wrun w1 r) as [w2 xs]. reflexivity.
+  intros. cbn [wrun]. destruct (wstep w o) as [w1 x]. cbn [fst]. destruct (wrun w1 r) as [w2 xs]. reflexivity.
 Qed.
 
 Lemma ar_run_ok : forall ops a a' rs, ar_inv a -> ar_run all_true a ops = (a', rs) ->
